@@ -14,11 +14,17 @@
 // notifications.  Compared with the model: only the SEQUENCE OF CONTENTS seen by the callback plus one
 // generous bucket ("the last callback came within 3x(R+debounce) of the last file operation").
 //
-// Determinism: nominal times are generated ≥ genMargin ms away from every instant at which a timer of the
-// loop can possibly expire (conservative tracker below, NOT the model); every script is run as independent
-// instances and is emitted only when two clean instances (all operations on time) agree; otherwise the case is
-// emitted as `unstable` (counted, never compared).  The Lean driver additionally refuses to predict scripts in
-// which an operation is nominally closer than its own margin to a model deadline.
+// Determinism on a loaded machine: scripts come from two structured families whose operations sit far from
+// every instant at which a timer of the loop can expire —
+//   tickless: R = 100 s (no reconcile tick during the script); bursts of back-to-back operations (ordered by
+//             channel handshakes, not by time) every 350 ms, so only the 100 ms debounce runs between bursts;
+//   ticked  : R ∈ {600,700,800} ms; per tick period at most one lone write at tick+50 ms (between the tick's
+//             fingerprint and its debounce expiry, tolerance ±40 ms) and one burst at tick+300 ms (±70 ms).
+// Every script is run as independent instances and emitted only when two clean instances (all operations
+// within maxDevMs of their nominal time) agree; otherwise the case is emitted as `unstable` (counted, never
+// compared).  The Lean driver additionally refuses to predict a script in which an operation is nominally
+// closer than its own margin to a model deadline (it then echoes the implementation's sequence, verdict from
+// the spec only).
 package main
 
 import (
@@ -30,6 +36,7 @@ import (
 	"sort"
 	"strings"
 	"sync"
+	"syscall"
 	"time"
 
 	"github.com/fsnotify/fsnotify"
@@ -39,9 +46,9 @@ import (
 )
 
 const (
-	genMargin  = 25 // ms: distance kept between an operation and any possible timer instant
-	maxDevMs   = 8  // ms: an operation later than this makes the instance unclean
-	syncWaitMs = 60
+	maxDevMs   = 25 // ms: an operation later than this makes the instance unclean
+	syncWaitMs = 80
+	tickless   = 100000 // ms: reconcile interval of the tickless family
 )
 
 var debounceMs = int(vx.C38DebounceDuration / time.Millisecond)
@@ -271,6 +278,9 @@ func runInstance(dir string, sc script) (out outcome) {
 	mu.Lock()
 	defer mu.Unlock()
 	out.seq = append([]string(nil), seq...)
+	if os.Getenv("C38_DEBUG") != "" {
+		fmt.Fprintf(os.Stderr, "c38 debug: %s clean=%v seq=%v cb=%v\n", sc.line(), out.clean, seq, cbTimes)
+	}
 	out.inTime = true
 	if n := len(cbTimes); n > 0 && cbTimes[n-1] > lastFsOp {
 		if cbTimes[n-1]-lastFsOp > time.Duration(3*(sc.R+debounceMs))*time.Millisecond {
@@ -282,88 +292,77 @@ func runInstance(dir string, sc script) (out outcome) {
 
 // ---------- generator ----------
 
-// clear reports whether nominal time t keeps genMargin from every instant at which a timer can possibly
-// expire: ticks k*R, debounces armed by a tick (k*R+100j) or by a delivered notification (fires[]).
-func clear(t, R int, fires []int) bool {
-	near := func(x, m int) bool { // x within genMargin of a positive multiple of m
-		if x < m-genMargin {
-			return false
-		}
-		r := x % m
-		return r < genMargin || m-r < genMargin
-	}
-	for j := 0; j <= 3; j++ {
-		if x := t - j*debounceMs; x > 0 && near(x, R) {
-			return false
-		}
-	}
-	for _, f := range fires {
-		if d := t - f; d > -genMargin && d < genMargin {
-			return false
-		}
-	}
-	return true
-}
-
-func genScript(r *hx.Rng, maxOps int) script {
-	sc := script{class: "random"}
-	sc.R = hx.Pick(r, []int{150, 170, 250, 250, 300, 400})
-	sc.init = hx.Pick(r, []string{"a", "a", "b", "-"})
-	n := 1 + r.Intn(maxOps)
-	var fires []int
-	t := 0
-	lossy := r.Intn(3) // 0: most notifications lost, 1: mixed, 2: most delivered
-	watcherUp := true
+func genBurst(r *hx.Rng, t0, n, lossy int) []op {
+	var ops []op
+	t := t0
 	for i := 0; i < n; i++ {
-		t += hx.Pick(r, []int{1, 1, 1, 2, 3, 30, 45, 60, 80, 110, 140, 200, 260, 420})
-		for !clear(t, sc.R, fires) {
-			t++
-		}
 		var o op
 		o.t = t
 		k := r.Intn(100)
 		switch {
-		case k < 34:
+		case k < 36:
 			o.kind, o.arg = "w", hx.Pick(r, []string{"a", "b", "c"})
-		case k < 44:
+		case k < 46:
 			o.kind, o.arg = "r", hx.Pick(r, []string{"a", "b", "c"})
-		case k < 52:
+		case k < 54:
 			o.kind = "d"
-		case k < 60:
+		case k < 61:
 			o.kind, o.arg = "x", hx.Pick(r, []string{"err", "chan", "dir"})
-			watcherUp = false
-		case k < 64:
+		case k < 65:
 			o.kind = "o"
-		case k < 68:
+		case k < 69:
 			o.kind = "E"
 		default:
 			o.kind = "e"
 		}
-		_ = watcherUp
-		sc.ops = append(sc.ops, o)
-		isWrite := o.kind == "w" || o.kind == "r" || o.kind == "d"
-		if o.kind == "e" || o.kind == "E" {
-			for j := 1; j <= 4; j++ {
-				fires = append(fires, t+j*debounceMs)
-			}
-		}
-		// notification for the change just made: delivered right away, late, twice, or lost
-		if isWrite && i+1 < n {
-			p := []int{15, 50, 85}[lossy]
-			if r.Intn(100) < p {
-				t++
-				for !clear(t, sc.R, fires) {
-					t++
-				}
-				sc.ops = append(sc.ops, op{t: t, kind: "e"})
-				for j := 1; j <= 4; j++ {
-					fires = append(fires, t+j*debounceMs)
-				}
-				i++
-			}
+		ops = append(ops, o)
+		t++
+		// notification for the change just made: delivered right away, or lost
+		if (o.kind == "w" || o.kind == "r" || o.kind == "d") && r.Intn(100) < []int{15, 50, 85}[lossy] {
+			ops = append(ops, op{t: t, kind: "e"})
+			t++
+			i++
 		}
 	}
-	sc.end = t + sc.R + debounceMs + 160
+	return ops
+}
+
+func genScript(r *hx.Rng, maxBurst int) script {
+	var sc script
+	sc.init = hx.Pick(r, []string{"a", "a", "b", "-"})
+	lossy := r.Intn(3) // 0: most notifications lost, 1: mixed, 2: most delivered
+	if r.Intn(100) < 40 {
+		sc.class, sc.R = "tickless", tickless
+		n := 1 + r.Intn(5)
+		t := 50
+		for i := 0; i < n; i++ {
+			sc.ops = append(sc.ops, genBurst(r, t, 1+r.Intn(maxBurst), lossy)...)
+			t += 350
+		}
+		sc.end = t + 100
+		return sc
+	}
+	sc.class, sc.R = "ticked", hx.Pick(r, []int{600, 700, 800})
+	periods := 1 + r.Intn(4)
+	for k := 0; k < periods; k++ {
+		base := k * sc.R
+		if k >= 1 && r.Intn(100) < 55 {
+			kind := hx.Pick(r, []string{"w", "w", "r", "d"})
+			arg := ""
+			if kind != "d" {
+				arg = hx.Pick(r, []string{"a", "b", "c"})
+			}
+			sc.ops = append(sc.ops, op{t: base + 50, kind: kind, arg: arg})
+		}
+		if r.Intn(100) < 75 {
+			sc.ops = append(sc.ops, genBurst(r, base+300, 1+r.Intn(maxBurst), lossy)...)
+		}
+	}
+	last := 0
+	if len(sc.ops) > 0 {
+		last = sc.ops[len(sc.ops)-1].t
+	}
+	sc.end = (last/sc.R+1)*sc.R + debounceMs*2 + 250 // one full tick after the last operation, its debounce (+ one restart), slack
 	return sc
 }
 
@@ -373,45 +372,51 @@ func fixedScripts() []script {
 		if len(ops) > 0 {
 			last = ops[len(ops)-1].t
 		}
-		return script{class: class, R: R, init: init, ops: ops, end: last + R + debounceMs + 160}
+		if R == tickless {
+			return script{class: class, R: R, init: init, ops: ops, end: last + 450}
+		}
+		return script{class: class, R: R, init: init, ops: ops, end: (last/R+1)*R + debounceMs*2 + 250}
 	}
 	W := func(t int, c string) op { return op{t, "w", c} }
 	Rp := func(t int, c string) op { return op{t, "r", c} }
 	D := func(t int) op { return op{t, "d", ""} }
 	E := func(t int) op { return op{t, "e", ""} }
 	X := func(t int, k string) op { return op{t, "x", k} }
+	O := func(t int) op { return op{t, "o", ""} }
+	EU := func(t int) op { return op{t, "E", ""} }
 	return []script{
-		// DESIGN §11 row 19: fingerprint taken at the reconcile tick, content changes before the debounce
-		// expires and that notification is lost
-		mk("witness", 250, "a", W(30, "b"), W(300, "c")),
-		mk("witness", 250, "a", W(30, "b"), E(31), W(60, "c")),
-		mk("witness", 250, "a", W(30, "b"), E(31), W(60, "a")), // back to the evaluated content
-		mk("witness", 250, "a", Rp(30, "b"), E(31), D(60)),
-		mk("witness", 250, "-", W(30, "b"), E(31), W(60, "c")),
+		// DESIGN §11 row 19: the fingerprint is taken when reconciling (tick at 600 / notification at 301), the
+		// content changes again before the debounce expires and THAT notification is lost
+		mk("witness", 600, "a", W(300, "b"), W(650, "c")),
+		mk("witness", tickless, "a", W(50, "b"), E(51), W(52, "c"), E(400)),
+		mk("witness", 600, "a", W(300, "b"), E(301), W(302, "c")),
+		mk("witness", 600, "a", W(300, "b"), E(301), W(302, "a")), // back to the evaluated content
+		mk("witness", 600, "a", Rp(300, "b"), E(301), D(302)),
+		mk("witness", 600, "-", W(300, "b"), E(301), W(302, "c")),
 		// ordinary behaviour
-		mk("basic", 250, "a"),
-		mk("basic", 250, "a", W(30, "b")),            // notification lost: reconciliation finds it
-		mk("basic", 250, "a", W(30, "b"), E(31)),     // delivered
-		mk("basic", 250, "a", W(30, "a"), E(31)),     // rewritten with identical content
-		mk("basic", 250, "a", W(30, "b"), E(31), E(32), E(60), E(400)), // duplicated / delayed
-		mk("basic", 250, "a", W(30, "b"), E(31), W(60, "c"), E(61)),    // debounce restarts
-		mk("basic", 250, "a", D(30), E(31), W(400, "a"), E(401)),       // delete, re-create with the old content
-		mk("basic", 250, "a", Rp(30, "b"), Rp(32, "c"), Rp(34, "b"), E(35)),
-		mk("basic", 300, "a", X(30, "err"), W(60, "b"), E(61), E(450), W(460, "c"), E(461)),
-		mk("basic", 300, "a", X(30, "chan"), W(60, "b")),
-		mk("basic", 300, "a", X(30, "dir"), W(60, "b"), op{70, "o", ""}, op{72, "E", ""}),
-		mk("basic", 150, "-", W(30, "a"), op{31, "E", ""}, D(200), op{201, "o", ""}),
+		mk("basic", 600, "a"),
+		mk("basic", 600, "a", W(300, "b")),          // notification lost: reconciliation finds it
+		mk("basic", 600, "a", W(300, "b"), E(301)),  // delivered
+		mk("basic", 600, "a", W(300, "a"), E(301)),  // rewritten with identical content
+		mk("basic", 700, "a", W(300, "b"), E(301), E(302), E(303), E(1000)), // duplicated / delayed
+		mk("basic", 600, "a", W(300, "b"), E(301), W(302, "c"), E(303)),     // debounce restarts
+		mk("basic", 600, "a", D(300), E(301), W(900, "a"), E(901)),          // delete, re-create with the old content
+		mk("basic", 600, "a", Rp(300, "b"), Rp(301, "c"), Rp(302, "b"), E(303)),
+		mk("basic", 600, "a", X(300, "err"), W(301, "b"), E(302), E(900), W(901, "c"), E(902)),
+		mk("basic", 600, "a", X(300, "chan"), W(301, "b")),
+		mk("basic", 600, "a", X(300, "dir"), W(301, "b"), O(302), EU(303)),
+		mk("basic", 600, "-", W(300, "a"), EU(301), D(900), O(901)),
+		mk("basic", tickless, "a", W(50, "b"), EU(51), W(400, "c"), O(401), D(750), E(751)),
 	}
 }
 
 // ---------- driver ----------
 
 type job struct {
-	sc       script
-	outs     []outcome
-	decided  bool
-	final    outcome
-	attempts int
+	sc      script
+	outs    []outcome
+	decided bool
+	final   outcome
 }
 
 func (j *job) decide() {
@@ -438,14 +443,19 @@ func main() {
 	for _, sc := range fixedScripts() {
 		jobs = append(jobs, &job{sc: sc})
 	}
-	nRandom := run.Scale(260, 1200)
+	// the loop under test is timed by real timers: ask for scheduling priority (ignored when not permitted)
+	_ = syscall.Setpriority(syscall.PRIO_PROCESS, 0, -10)
+	nRandom := run.Scale(150, 600)
+	if os.Getenv("C38_FIXED_ONLY") != "" {
+		nRandom = 0
+	}
 	for i := 0; i < nRandom; i++ {
-		sc := genScript(run.Rng, 3+run.Rng.Intn(run.Scale(10, 16)))
+		sc := genScript(run.Rng, run.Scale(6, 9))
 		jobs = append(jobs, &job{sc: sc})
 	}
 
-	const batch = 320 // scripts per batch, two instances each, all in parallel (they mostly sleep)
-	unstable, reruns := 0, 0
+	const batch = 170 // scripts per batch, two instances each, all in parallel (they mostly sleep)
+	unstable, reruns, dirID := 0, 0, 0
 	for lo := 0; lo < len(jobs); lo += batch {
 		hi := lo + batch
 		if hi > len(jobs) {
@@ -455,17 +465,19 @@ func main() {
 		for round := 0; round < 3 && len(pending) > 0; round++ {
 			var wg sync.WaitGroup
 			var mu sync.Mutex
-			for ji, j := range pending {
+			for _, j := range pending {
 				for inst := 0; inst < 2; inst++ {
 					wg.Add(1)
+					dirID++
 					go func(j *job, id int) {
 						defer wg.Done()
+						time.Sleep(time.Duration(id%1024) * 500 * time.Microsecond) // stagger the start-up file work
 						dir := filepath.Join(scratch, fmt.Sprintf("s%d", id))
 						o := runInstance(dir, j.sc)
 						mu.Lock()
 						j.outs = append(j.outs, o)
 						mu.Unlock()
-					}(j, (lo+ji)*8+round*2+inst)
+					}(j, dirID)
 				}
 			}
 			wg.Wait()
